@@ -156,6 +156,11 @@ class Loop:
         activations = self._activations
         while activations:
             now, pending = activations.pop()
+            # do not move time to a date at which nothing is left to run
+            while pending and not pending[0]:
+                pending.popleft()
+            if not pending:
+                continue
             self.time = now
             self.turn = 0
             self._pending = pending
